@@ -279,6 +279,8 @@ pub struct Report {
     known: Vec<KnownFinding>,
     inner: Mutex<ReportInner>,
     replay_counter: AtomicU64,
+    failures_seen: AtomicU64,
+    shrinks_done: AtomicU64,
 }
 
 #[derive(Default)]
@@ -297,7 +299,28 @@ impl Report {
             known: load_known_findings(),
             inner: Mutex::new(ReportInner::default()),
             replay_counter: AtomicU64::new(0),
+            failures_seen: AtomicU64::new(0),
+            shrinks_done: AtomicU64::new(0),
         }
+    }
+
+    /// Called by exploration shards as soon as a history fails (before it is triaged), so that
+    /// the other shards can stop early: a broken tree must not cost the whole budget.
+    pub fn note_failure(&self) {
+        self.failures_seen.fetch_add(1, Ordering::Relaxed);
+    }
+
+    pub fn failures_seen(&self) -> u64 {
+        self.failures_seen.load(Ordering::Relaxed)
+    }
+
+    /// Shrinking is expensive: it is done for the first few distinct unlisted signatures only.
+    pub fn should_shrink(&self, sig: &str) -> bool {
+        if self.is_known(sig) {
+            return false;
+        }
+        let already = self.inner.lock().unwrap().violation_sigs.contains(sig);
+        !already && self.shrinks_done.fetch_add(1, Ordering::Relaxed) < 4
     }
 
     pub fn is_known(&self, sig: &str) -> bool {
